@@ -406,7 +406,10 @@ func (s *TrackLocalStaticSample) GeneratePadding(samples uint32) error {
 		return nil
 	}
 
+	// the packetizer is not safe for concurrent use: serialize with WriteSample
+	s.mu.Lock()
 	packets := p.GeneratePadding(samples)
+	s.mu.Unlock()
 
 	writeErrs := []error{}
 	for _, p := range packets {
